@@ -71,7 +71,7 @@ HOSTKEY_ALGS = ("ssh-ed25519", "ecdsa-sha2-nistp256", "rsa-sha2-512", "ssh-rsa",
                 "rsa-sha2-256", "ecdsa-sha2-nistp521")
 # mutation operators that every quick run executes for every field of every template (the rest is sampled)
 CORE_OPS = ("valid", "badutf8.0", "type-only", "cut", "cut-in-data")
-CORE_OPS_KEX = ("valid", "badutf8.0", "cut", "cut-in-data", "empty", "type-only")
+CORE_OPS_KEX = ("valid", "badutf8.0", "cut", "cut-in-data", "empty", "mpint-zero", "mpint-zero-noncanon", "type-only")
 
 
 def op_of(label):
@@ -240,6 +240,26 @@ def ecdsa_inner_sig_template(alg, sigblob=None):
 
 
 KEXES = tuple(rawpeer.KEX_FAMILY)
+
+
+def explicit_gap_counts(ctx, tm, label, role):
+    """Named generator strata (round-2 gap classes): an mpint of length 0, and a message cut exactly at a
+    field boundary / right before an mpint, in kex and signature messages."""
+    op = op_of(label)
+    fld = None
+    if "@" in label:
+        try:
+            fld = tm.fields[int(label.rsplit("@", 1)[1].split(":", 1)[0])]
+        except (ValueError, IndexError):
+            fld = None
+    if fld is not None and fld.kind == "mpint" and op in ("empty", "mpint-zero"):
+        ctx.count("gen.mpint_zero_length.%s" % role)
+        ctx.count("gen.mpint_zero_length.%s.%s" % (role, tm.name.split(":")[0]))
+    if op == "cut":
+        ctx.count("gen.cut_at_field_boundary.%s" % role)
+        if fld is not None and fld.kind == "mpint":
+            ctx.count("gen.cut_right_before_mpint.%s" % role)
+            ctx.count("gen.cut_right_before_mpint.%s.%s" % (role, tm.name.split(":")[0]))
 
 
 def gex_p_spins(tmpl_name, payload):
@@ -450,6 +470,7 @@ class RawStage:
                             if role == "S":
                                 chunks += [g.frame(b"\x15"), bytes(rng.getrandbits(8) for _ in range(64))]
                             ctx.count("inj.raw.kexmsg.t%d" % tm.ptype)
+                            explicit_gap_counts(ctx, tm, label, role)
                             self.session(role, chunks, ("R", role, "kexmsg", kex, old_gex, label), hostkey_alg=hk,
                                          sample=(label == "kexecdh-reply/cut@1:q_s"))
         # 5. nested host-key and signature blobs (client victim) -----------
@@ -479,6 +500,7 @@ class RawStage:
                             fields.append(f)
                     chunks = banner + [kif] + [g.frame(g.payload(m)) for m in msgs[:-1]] + [g.frame(g.build(reply.ptype, fields))]
                     ctx.count("inj.raw.nested-" + which)
+                    explicit_gap_counts(ctx, tmpl, label, "C")
                     self.session("C", chunks, ("R", "C", "nested", alg, kex, label), hostkey_alg=alg,
                                  sample=(label.endswith("badutf8.0@0:alg") and alg == "ssh-ed25519"))
         # 6. other messages in the clear: before KEXINIT, between KEXINIT and the kex message
@@ -602,10 +624,16 @@ def pk_env(att_transport, key, user="u", alg=None):
 class Sess:
     """One keyed session: victim (unmodified, watched) + attacker."""
 
-    def __init__(self, ctx, role, auth, chan, cfg=None, evil=False, gss=False, victim_cls=None, keyn=0):
+    def __init__(self, ctx, role, auth, chan, cfg=None, evil=False, gss=False, victim_cls=None, keyn=0, life=None):
         self.ctx = ctx
         self.role = role  # victim role: "S" server, "C" client
         self.auth, self.chan = auth, chan
+        # lifecycle state reached with *honest* traffic before the takeover:
+        # failed:none|password|publickey|interactive, partial, success, query (server only)
+        self.life = life
+        if life is not None:
+            self.auth = (life == "success")
+            self.chan = False
         self.cfg = cfg or {}
         self.script = []
         self.api_threads = []
@@ -620,6 +648,8 @@ class Sess:
             check_global_request=lambda k: True,
             enable_auth_gssapi=bool(gss),
         )
+        if life == "partial":
+            policy["check_auth_password"] = lambda u, p: paramiko.AUTH_PARTIALLY_SUCCESSFUL
         akw = {}
         if evil:
             akw["packetizer_class"] = evil_tap(self.rec)
@@ -649,10 +679,38 @@ class Sess:
         self.rc = self.sc = 0
         self._env = None
 
+    def _lifecycle(self):
+        """Drive one complete authentication attempt with honest traffic."""
+        life = self.life
+        caller = self.v if self.role == "C" else self.att
+        handler = lambda t, i, p: ["x"] * len(p)  # noqa: E731
+        if life == "failed:none":
+            call = ("auth_none", caller.auth_none, ("u",))
+        elif life == "failed:password":
+            call = ("auth_password", caller.auth_password, ("u", "wrong"))
+        elif life == "failed:publickey":
+            call = ("auth_publickey", caller.auth_publickey, ("u", keys.ed25519(1)))
+        elif life == "failed:interactive":
+            call = ("auth_interactive", caller.auth_interactive, ("u", handler))
+        elif life in ("partial", "success"):
+            call = ("auth_password", caller.auth_password, ("u", "pw"))
+        else:
+            return True
+        _, e = excsan.api(call[1], *call[2])
+        if self.role == "C":
+            # the victim's own call: its exception type is judged like any other
+            self.api_excs.append((call[0], e))
+        self.ctx.count("lifecycle_attempts_completed")
+        want_ok = life in ("partial", "success")
+        return (e is None) == want_ok and self.v.is_active()
+
     def start(self):
         a = self.a
-        ok = a.start(auth=self.auth, timeout=60)
+        ok = a.start(auth=self.auth if self.life is None else False, timeout=60)
         if not ok:
+            return False
+        if self.life is not None and not self._lifecycle():
+            self.ctx.count("lifecycle_setup_unexpected")
             return False
         if self.chan:
             try:
@@ -672,6 +730,12 @@ class Sess:
             except Exception:
                 return False
         a.takeover(keep=())
+        if self.life == "query":
+            # server victim left waiting for USERAUTH_INFO_RESPONSE
+            self.send("service-request/valid", g.payload(g.t_service("request")[0]))
+            kbd = [t for t in g.t_userauth_requests(self.env()) if t.name.endswith("keyboard-interactive")][0]
+            if not self.send(kbd.name + "/valid", g.payload(kbd)):
+                return False
         self.ok = True
         return True
 
@@ -837,7 +901,7 @@ class PostStage:
         return None
 
     # -- generic injection into a passive victim ----------------------------
-    def inject_stream(self, stage, role, auth, chan, items, cfg=None, gss=False, frac_note=None):
+    def inject_stream(self, stage, role, auth, chan, items, cfg=None, gss=False, frac_note=None, life=None):
         """items: iterable of (desc, label, payload_fn(env)) — several per session."""
         ctx = self.ctx
         sess = None
@@ -848,7 +912,7 @@ class PostStage:
             if sess is None or not sess.alive() or used >= self.PROBES_PER_SESSION:
                 if sess is not None:
                     sess.finish(self.judge, last_desc, stage, sample=False)
-                sess = self.new_sess(role, auth, chan, cfg=cfg, gss=gss, keyn=n)
+                sess = self.new_sess(role, auth, chan, cfg=cfg, gss=gss, keyn=n, life=life)
                 used = 0
                 if sess is None:
                     ctx.case(desc, nontrivial=False)
@@ -857,8 +921,12 @@ class PostStage:
             env = sess.env()
             payload = mk(env)
             ctx.count("inj.%s.%s.%s" % (stage, role, family(label.split("/", 1)[0])))
+            if life is not None:
+                ctx.count("inj.lifecycle.total")
+                ctx.count("inj.lifecycle.%s.%s" % (role, life))
             ctx.case(desc, sample=dict(stage=stage, victim_role=role, label=label, payload=payload[:120])
-                     if label.endswith("badutf8.0@1:request") or label.endswith("cut@2:method") else None)
+                     if label.endswith("badutf8.0@1:request") or label.endswith("cut@2:method")
+                     or (life == "failed:password" and label == "service-accept:ssh-userauth/valid") else None)
             sess.send(label, payload)
             used += 1
             last_desc = desc
@@ -917,6 +985,7 @@ class PostStage:
                                             g.F("method", "text", "publickey"), g.F("has_sig", "bool", True),
                                             g.F("alg", "text", kalg), g.F("blob", "str", kblob), g.F("sig", "str", ksig)])
 
+                    explicit_gap_counts(self.ctx, tmpl, label, "S")
                     lab = "userauth-request:publickey-nested-%s/%s" % (which, label)
                     yield (stage, "S", False, False, lab), lab, mk
 
@@ -957,6 +1026,126 @@ class PostStage:
         for stage, role, auth, chan, fn in plan:
             self.inject_stream(stage, role, auth, chan, self.tmpl_items(stage, role, auth, chan, fn))
             self.inject_stream(stage, role, auth, chan, self.sweep_items(stage, role, auth, chan))
+
+    # -- auth-protocol messages arriving late / out of phase ------------------
+    def run_lifecycle(self):
+        """After a *completed* authentication attempt (failed by each method, partial, successful; server also:
+        interactive query outstanding) the peer sends auth-protocol messages again."""
+        def client_late(env):
+            return (g.t_service("accept") + g.t_userauth_replies(env) + g.t_userauth_server_side_extra()[:2]
+                    + g.t_ext_info() + g.t_service("request")[:1])
+
+        def server_late(env):
+            return (g.t_service("request") + g.t_userauth_requests(env) + g.t_userauth_server_side_extra()
+                    + g.t_service("accept")[:1])
+
+        states = ("failed:none", "failed:password", "failed:publickey", "failed:interactive", "partial", "success")
+        for role, fn, sts in (("C", client_late, states), ("S", server_late, states + ("query",))):
+            for life in sts:
+                stage = "life"
+                items = self.tmpl_items(stage + ":" + life, role, life == "success", False, fn,
+                                        core_ops=("valid", "type-only"), frac=0.03)
+                self.inject_stream(stage, role, life == "success", False, items, life=life)
+
+    # -- duplicate / late confirmations in the connection protocol -----------
+    def run_late_confirm(self):
+        """Replies nobody is waiting for (or a second copy of one), each followed by a wait=True global
+        request issued by the *victim* and answered by us: when that returns, the injected message was
+        processed and the victim's request/reply bookkeeping still works."""
+        ctx = self.ctx
+
+        def conf(rc, sender=7, window=2097152, maxp=32768):
+            return g.build(91, [g.F("rc", "chan", rc), g.F("s", "u32", sender), g.F("w", "u32", window), g.F("m", "u32", maxp)])
+
+        def fail(rc, reason=1):
+            return g.build(92, [g.F("rc", "chan", rc), g.F("r", "u32", reason), g.F("d", "text", "no"), g.F("l", "text", "en")])
+
+        cases = [
+            ("dup-open-confirmation", lambda s: [conf(s.rc, s.sc)]),
+            ("dup-open-confirmation-x3", lambda s: [conf(s.rc, s.sc)] * 3),
+            ("dup-open-confirmation-other-sender", lambda s: [conf(s.rc, s.sc + 5)]),
+            ("dup-open-confirmation-zero-window", lambda s: [conf(s.rc, s.sc, 0, 0)]),
+            ("open-confirmation-peer-opened-channel", lambda s: [conf(s.peer_opened, s.sc)] if s.peer_opened is not None else []),
+            ("open-confirmation-never-requested", lambda s: [conf(s.rc + 40, 9)]),
+            ("open-failure-for-open-channel", lambda s: [fail(s.rc)]),
+            ("open-failure-for-open-channel-unknown-reason", lambda s: [fail(s.rc, 99)]),
+            ("open-failure-peer-opened-channel", lambda s: [fail(s.peer_opened)] if s.peer_opened is not None else []),
+            ("open-failure-never-requested", lambda s: [fail(s.rc + 40)]),
+            ("open-confirmation-then-failure", lambda s: [conf(s.rc, s.sc), fail(s.rc)]),
+            ("channel-success-none-pending", lambda s: [g.build(99, [g.F("rc", "chan", s.rc)])]),
+            ("channel-failure-none-pending", lambda s: [g.build(100, [g.F("rc", "chan", s.rc)])]),
+            ("channel-success-x3", lambda s: [g.build(99, [g.F("rc", "chan", s.rc)])] * 3),
+            ("channel-success-peer-opened-channel", lambda s: [g.build(99, [g.F("rc", "chan", s.peer_opened)])] if s.peer_opened is not None else []),
+            ("request-success-none-pending", lambda s: [b"\x51"]),
+            ("request-success-with-port-none-pending", lambda s: [b"\x51" + g.u32(4022)]),
+            ("request-failure-none-pending", lambda s: [b"\x52"]),
+            ("request-success-x3", lambda s: [b"\x51", b"\x51" + g.u32(1), b"\x51"]),
+            ("request-failure-then-success", lambda s: [b"\x52", b"\x51"]),
+        ]
+        for role in ("C", "S"):
+            for name, mk in cases:
+                for pending in (False, True):
+                    if not self.mine(core=True):
+                        continue
+                    desc = ("late-confirm", role, name, pending)
+                    sess = self.new_sess(role, True, True)
+                    if sess is None:
+                        ctx.case(desc, nontrivial=False)
+                        continue
+                    v = sess.v
+                    # a channel opened by the *peer* (us) towards the victim
+                    sess.peer_opened = None
+                    if role == "S":
+                        sess.peer_opened = sess.rc  # the session channel was opened by the attacker-client
+                    else:
+                        v._tcp_handler = lambda *a, **k: None
+                        m0 = sess.a.inbox_mark()
+                        fw = [t for t in g.t_channel_open(sess.env()) if "forwarded-tcpip" in t.name][0]
+                        if sess.send("channel-open:forwarded-tcpip/valid", g.payload(fw)):
+                            r = sess.a.wait_inbox(lambda e: e["type"] == 91, 0.5, m0)
+                            if r is not None:
+                                mm = Message(r["payload"])
+                                mm.get_int()
+                                sess.peer_opened = mm.get_int()
+                    msgs = mk(sess)
+                    if not msgs or not sess.alive():
+                        ctx.case(desc, nontrivial=False)
+                        sess.finish(self.judge, desc, "late-confirm")
+                        continue
+                    ctx.case(desc, sample=dict(stage="late-confirm", victim_role=role, case=name, request_pending=pending,
+                                               messages=msgs) if name == "dup-open-confirmation" else None)
+                    th = None
+                    mark = sess.a.inbox_mark()
+                    if pending:
+                        # the duplicates arrive while a *real* request of the victim is outstanding
+                        th = sess.api("global_request", v.global_request, "vf-pending@verif", None, True)
+                        sess.wait_type((80,), mark, 3.0, th.done)
+                    alive = True
+                    for pl in msgs:
+                        ctx.count("inj.late-confirm.%s.%s" % (role, name))
+                        ctx.count("inj.late-confirm.total")
+                        alive = sess.send(name, pl)
+                        if not alive:
+                            break
+                    if alive and th is not None and not th.done.is_set():
+                        sess.send("request-failure/valid", b"\x52")
+                        th.done.wait(5.0)
+                    # victim-side round trip: its bookkeeping must still work
+                    if alive and sess.alive():
+                        m2 = sess.a.inbox_mark()
+                        rt = sess.api("global_request", v.global_request, "vf-roundtrip@verif", None, True)
+                        if sess.wait_type((80,), m2, 5.0, rt.done) is not None:
+                            sess.send("request-success/valid", b"\x51", barrier=False)
+                            if rt.done.wait(10.0) and rt.exc is None:
+                                ctx.count("late_confirm.roundtrips_ok")
+                        if role == "C" and sess.alive():
+                            # and the channel the duplicates were about is still usable
+                            m3 = sess.a.inbox_mark()
+                            ex = sess.api("exec_command", sess.vchan.exec_command, "true")
+                            if sess.wait_type((98,), m3, 3.0, ex.done) is not None:
+                                sess.send("channel-success/valid", g.build(99, [g.F("rc", "chan", sess.rc)]), barrier=False)
+                                ex.done.wait(5.0)
+                    sess.finish(self.judge, desc, "late-confirm")
 
     # -- client victim with API calls in flight -----------------------------
     def run_client_auth(self):
@@ -1318,9 +1507,15 @@ class PostStage:
                         if gex_p_spins(tm.name, pl):
                             continue
                         todo.append(("kexmsg", label, pl, mi))
+                fam_first = kex in ("curve25519-sha256@libssh.org", "ecdh-sha2-nistp256",
+                                    "diffie-hellman-group14-sha256", "diffie-hellman-group-exchange-sha256")
                 for kind, label, pl, mi in todo:
-                    if not self.mine(core=(op_of(label) == "badutf8.0" and kn < 2), frac=0.03):
+                    core = (op_of(label) == "badutf8.0" and kn < 2) or (
+                        kind == "kexmsg" and fam_first and op_of(label) in ("cut", "empty", "mpint-zero"))
+                    if not self.mine(core=core, frac=0.03):
                         continue
+                    if kind == "kexmsg":
+                        explicit_gap_counts(ctx, msgs[mi], label, role)
                     desc = ("rekey", role, kex, label)
                     sess = self.new_sess(role, True, False)
                     if sess is None:
@@ -1397,8 +1592,9 @@ def run(ctx):
     RawStage(ctx, judge, budget).run()
     ctx.count("wall_ms.raw", int((time.time() - t_raw) * 1000))
     post = PostStage(ctx, judge, budget)
-    for name, share in (("run_bitflips", 0.05), ("run_evil_framing", 0.05), ("run_gss", 0.04), ("run_passive", 0.30),
-                        ("run_client_auth", 0.12), ("run_client_conn", 0.08), ("run_rekey", 0.08)):
+    for name, share in (("run_bitflips", 0.05), ("run_evil_framing", 0.05), ("run_gss", 0.04), ("run_late_confirm", 0.05),
+                        ("run_lifecycle", 0.10), ("run_passive", 0.25), ("run_client_auth", 0.10),
+                        ("run_client_conn", 0.07), ("run_rekey", 0.08)):
         t0 = time.time()
         budget.start(name, share)
         getattr(post, name)()
@@ -1417,3 +1613,23 @@ def run(ctx):
     ctx.require("saved_exceptions_seen", 300 if q else 2000)
     ctx.require("api_calls_returned", 30 if q else 300)
     ctx.require("packets_corrupted_on_wire", 10 if q else 80)
+    # lifecycle strata: auth-protocol messages after a completed attempt
+    ctx.require("lifecycle_attempts_completed", 60 if q else 300)
+    ctx.require("inj.lifecycle.total", 150 if q else 1000)
+    for st in ("failed:none", "failed:password", "failed:publickey", "failed:interactive", "partial", "success"):
+        ctx.require("inj.lifecycle.C." + st, 8 if q else 40)
+        ctx.require("inj.lifecycle.S." + st, 8 if q else 40)
+    ctx.require("inj.lifecycle.S.query", 8 if q else 40)
+    # named gap strata: zero-length mpint / cut at field boundaries in kex and signature messages
+    # (these cases are "core": every run of either tier executes all of them)
+    for r, zl, cb, cm in (("C", 25, 45, 15), ("S", 15, 25, 8)):
+        ctx.require("gen.mpint_zero_length." + r, zl)
+        ctx.require("gen.cut_at_field_boundary." + r, cb)
+        ctx.require("gen.cut_right_before_mpint." + r, cm)
+    for name in ("C.kexdh-reply", "C.kex-gex-group", "C.kex-gex-reply", "C.ecdsa-sig-inner",
+                 "S.kexdh-init", "S.kex-gex-init", "S.ecdsa-sig-inner"):
+        ctx.require("gen.mpint_zero_length." + name, 2)
+        ctx.require("gen.cut_right_before_mpint." + name, 2)
+    # duplicate / late confirmations, each followed by a victim-side wait=True round trip
+    ctx.require("inj.late-confirm.total", 60 if q else 60)
+    ctx.require("late_confirm.roundtrips_ok", 40 if q else 40)
